@@ -815,6 +815,9 @@ def oracle_c03(tr, sc):
     if tr.exc is not None:
         if tr.exc[0] == 'StepCapExceeded':
             res.probe('skipped_step_cap')
+            over, worst, K_, nf = _budget_exceeded_before_cap(ctx, sc)
+            if over:
+                V('iteration_budget', 'CheckConvergence', f'a step started {worst} iterations with maxiter {K_} and {nf} forced continuation(s) in the script (run stopped by the event cap of the harness)')
         else:
             V('unexpected_exception', tr.exc[0], tr.exc[1])
         return
@@ -961,6 +964,15 @@ def oracle_c01(tr, sc):
         V('returned_value', 'run', 'returned value is not the end value of the last step')
 
 
+def _budget_exceeded_before_cap(ctx, sc):
+    """A run stopped by the harness's event cap: did a step exceed its iteration budget by more than all forced continuations
+    of the script together could account for?  (Each forced continuation adds at most one iteration to the steps of a block.)"""
+    K = sc['config']['step']['maxiter']
+    nforce = sum(1 for f in sc['faults'].get('force', []) if f[3] == 'continue')
+    worst = max((a.get('niter_cb', 0) for a in ctx.attempts), default=0)
+    return worst > K + nforce + 1, worst, K, nforce
+
+
 def oracle_c03_injected(tr, sc):
     """Stopping soundness under injected verdict/force patterns (the residual itself is the injected 0/1)."""
     ctx, res = tr.ctx, tr.res
@@ -969,6 +981,10 @@ def oracle_c03_injected(tr, sc):
     if tr.exc is not None:
         if tr.exc[0] != 'StepCapExceeded':
             V('unexpected_exception', tr.exc[0], tr.exc[1])
+        else:
+            over, worst, K_, nf = _budget_exceeded_before_cap(ctx, sc)
+            if over:
+                V('iteration_budget', 'CheckConvergence', f'a step started {worst} iterations with maxiter {K_} and {nf} forced continuation(s) in the script (run stopped by the event cap of the harness)')
         return
     K = cfg['step']['maxiter']
     a2d = cfg['controller'].get('all_to_done')
